@@ -6,7 +6,8 @@
   Two layers:
   * the *graph layer* the theorems talk about: variable specifications are numbered `0 … n-1`
     in source order (the list `getVars` builds), `g : Deps` gives for each its collected
-    dependencies, `orderY g` is the multi-pass loop of `genGlobalVarDecl` exactly as written;
+    dependencies, `orderY g` is the loop of `genGlobalVarDecl` exactly as written (since the repair
+    of F15: the scan restarts from the earliest remaining specification after every append);
   * the *package layer* the driver runs: a package is a list of variable specifications with the
     identifiers occurring in their initialisers and a list of functions/methods with the identifiers
     of their bodies; `collectDepsY` is `getVarDependencies`, `runY` is `Execute`.
@@ -27,11 +28,14 @@ def depsOf (g : Deps) (i : Nat) : List Nat := g.getD i []
 def ready (g : Deps) (done : List Nat) (i : Nat) : Bool :=
   (depsOf g i).all (fun d => done.contains d)
 
-/-- one execution of `for _, n := range nodes { … }`: (`varNode.child`, `revisit`) -/
+/-- one execution of `for i, n := range nodes { … }`: the specifications that are not ready are
+    put on `revisit`; the first one that is ready is appended to `varNode.child`, the rest of the
+    list goes to `revisit` unexamined (`revisit = append(revisit, nodes[i+1:]...)`) and the scan
+    stops (`break`). Result: (`varNode.child`, `revisit`) -/
 def pass (g : Deps) : List Nat → List Nat → List Nat × List Nat
   | [], done => (done, [])
   | n :: ns, done =>
-    if ready g done n then pass g ns (done ++ [n])
+    if ready g done n then (done ++ [n], ns)
     else ((pass g ns done).1, n :: (pass g ns done).2)
 
 /-- result of the ordering: the order, the "variable definition loop" error, or fuel exhausted
@@ -54,7 +58,7 @@ def loopY (g : Deps) : Nat → List Nat → List Nat → Res
     else loopY g fuel r.2 r.1
 
 /-- `genGlobalVarDecl(nodes, sc)` on `n` specifications; the fuel is the number of
-    specifications plus one (every iteration that does not stop removes at least one) -/
+    specifications plus one (every iteration that does not stop removes exactly one) -/
 def orderY (g : Deps) : Res := loopY g (g.length + 1) (List.range g.length) []
 
 /-- "every element's dependencies occur before it" -/
@@ -63,25 +67,6 @@ def respectsFrom (g : Deps) : List Nat → List Nat → Bool
   | pre, i :: rest => ready g pre i && respectsFrom g (pre ++ [i]) rest
 
 def Respects (g : Deps) (l : List Nat) : Prop := respectsFrom g [] l = true
-
-/-- the condition under which the pass loop behaves like "pick the earliest ready": whenever the
-    loop appends a specification, none of those it skipped earlier *in the same pass* has become
-    ready in the meantime (`sk` = skipped so far in this pass) -/
-def passClean (g : Deps) : List Nat → List Nat → List Nat → Bool
-  | _, [], _ => true
-  | sk, n :: ns, done =>
-    if ready g done n then sk.all (fun s => !ready g done s) && passClean g sk ns (done ++ [n])
-    else passClean g (sk ++ [n]) ns done
-
-def loopClean (g : Deps) : Nat → List Nat → List Nat → Bool
-  | 0, _, _ => true
-  | fuel + 1, nodes, done =>
-    passClean g [] nodes done &&
-      (let r := pass g nodes done
-       if r.2.isEmpty then true else if r.2 == nodes then true else loopClean g fuel r.2 r.1)
-
-/-- no specification is overtaken (decidable) -/
-def noOvertake (g : Deps) : Bool := loopClean g (g.length + 1) (List.range g.length) []
 
 /-! ### package layer -/
 
